@@ -26,6 +26,8 @@
    9P Flag bytes (< 256), which is what [op_wf] says. *)
 From Coq Require Import List NArith ZArith Bool.
 From P9 Require Import Base.Res Model.Path Model.HostFS Model.Ufs.
+From Coq Require Import ZArith.
+From P9 Require Import Base.GoRt Gen.GenUfsOflags Proofs.GenUfsOflagsEq.
 From P9 Require Import Proofs.PathProofs Proofs.PathExtra Proofs.UfsProofs Proofs.UfsProofsPath
                        Proofs.UfsProofsSim Proofs.UfsProofsMirror.
 Import ListNotations.
@@ -51,6 +53,15 @@ Print Assumptions C19_mirror_partial.
 Theorem C19_oflags : forall m, m < 256 -> ufs_oflags m = spec_oflags m.
 Proof. exact oflags_eq. Qed.
 Print Assumptions C19_oflags.
+
+(* ... and [ufs_oflags] is what the CURRENT source of ufs/util.go's flag mapping computes: the function is
+   translated statement by statement on every run (Gen/GenUfsOflags.v, harness/cmd/gen/gofn.go) and agrees
+   with the model on all 256 mode bytes (Linux numbering of the os.O_* constants: RDONLY 0, WRONLY 1, RDWR 2,
+   TRUNC 512; O_CREATE is or-ed in by Create, not here) *)
+Theorem C19_source_oflags : forall m, m < 256 ->
+  gen_oflags (Z.of_N m) = Ret (oflag_num (ufs_oflags m)) /\ of_creat (ufs_oflags m) = false.
+Proof. exact gen_oflags_eq. Qed.
+Print Assumptions C19_source_oflags.
 
 Theorem C19_perm : forall p, N.land p 511 = p mod 512.
 Proof. exact perm_eq. Qed.
